@@ -178,6 +178,82 @@ func init() {
 				}
 			}
 		}
+		c.Rule("C40f geo table orientation: CalcGeoLatency looks the latency up as GEO_LATENCY_MAP[required geo][provider geo] — outer key its first parameter, inner key the element of the provider's geolocations — (the table is not symmetric), and GeoReq.Score hands it its own Geo first. C40g the product does not eat its factors: CalcPairingScore multiplies the stored components into a fresh accumulator seeded with one and calls no in-place (…Mut) decimal operation — LegacyDec shares its big.Int, so an in-place product seeded with a component overwrites that stored component, and the next slot group's incremental re-score multiplies it in again")
+		if cg := c.Fn("x/pairing/keeper/scores.CalcGeoLatency"); cg != nil {
+			outerOK, innerOK, n := false, false, 0
+			ir.EachInstr(cg, func(in ssa.Instruction) {
+				lk, ok := in.(*ssa.Lookup)
+				if !ok {
+					return
+				}
+				n++
+				xd := ir.Desc(lk.X)
+				if strings.Contains(xd, "GEO_LATENCY_MAP") && !strings.Contains(xd, "[") {
+					outerOK = len(cg.Params) == 2 && lk.Index == ssa.Value(cg.Params[0])
+				} else {
+					innerOK = strings.HasPrefix(ir.Desc(lk.Index), "param#1[")
+				}
+			})
+			if n == 2 && outerOK && innerOK {
+				c.OK("C40f/CalcGeoLatency/table[required][provider]", c.P.Pos(cg.Pos()), "GEO_LATENCY_MAP[reqGeo][pGeo]")
+			} else {
+				c.Fail("C40f/CalcGeoLatency/table[required][provider]", c.P.Pos(cg.Pos()), "the latency table is not consulted as GEO_LATENCY_MAP[required geo][provider geo] (outer key = first parameter, inner key = a provider geolocation): the table is asymmetric, so swapped keys give other providers the maximum latency")
+			}
+			if gs := c.Fn("x/pairing/keeper/scores.GeoReq.Score"); gs != nil {
+				okCall := false
+				for _, s := range c.CallsByName(gs, false, "x/pairing/keeper/scores.CalcGeoCost") {
+					if d := ir.Desc(unconv(ir.CallOf(s.Instr).Args[0])); strings.HasSuffix(d, ".Geo") && (strings.HasPrefix(d, "recv") || strings.Contains(d, "GeoReq")) {
+						okCall = true
+					}
+				}
+				if cc := c.Fn("x/pairing/keeper/scores.CalcGeoCost"); cc != nil && okCall {
+					okCall = false
+					for _, s := range c.CallsByName(cc, false, "x/pairing/keeper/scores.CalcGeoLatency") {
+						a := ir.CallOf(s.Instr).Args
+						if len(a) == 2 && len(cc.Params) == 2 && a[0] == ssa.Value(cc.Params[0]) && a[1] == ssa.Value(cc.Params[1]) {
+							okCall = true
+						}
+					}
+				}
+				if okCall {
+					c.OK("C40f/GeoReq.Score/required-geo-first", c.P.Pos(gs.Pos()), "")
+				} else {
+					c.Fail("C40f/GeoReq.Score/required-geo-first", c.P.Pos(gs.Pos()), "GeoReq.Score does not pass its own required geolocation as CalcGeoLatency's first argument")
+				}
+			}
+		}
+		if cps := c.Fn("x/pairing/keeper/scores.CalcPairingScore"); cps != nil {
+			bad := ""
+			var at ssa.Instruction
+			ir.EachInstr(cps, func(in ssa.Instruction) {
+				if call := ir.CallOf(in); call != nil {
+					n := ir.CalleeName(call)
+					if strings.HasPrefix(n, "cosmossdk.io/math.LegacyDec.") && strings.HasSuffix(n, "Mut") {
+						bad, at = "calls the in-place "+n, in
+					}
+				}
+				if st, ok := in.(*ssa.Store); ok {
+					if fa, ok := st.Addr.(*ssa.FieldAddr); ok && ir.FieldKey(fa) == "x/pairing/keeper/scores.PairingScore.Score" {
+						seedOK := false
+						for _, leaf := range phiLeaves(st.Val) {
+							if cl, ok := leaf.(*ssa.Call); ok && calleeOrAlias(&cl.Call) == "cosmossdk.io/math.LegacyOneDec" {
+								seedOK = true
+							} else if cl, ok := leaf.(*ssa.Call); !ok || ir.CalleeName(&cl.Call) != "cosmossdk.io/math.LegacyDec.Mul" {
+								bad, at = "builds the score from "+trunc(ir.Desc(leaf), 80), in
+							}
+						}
+						if !seedOK && bad == "" {
+							bad, at = "does not seed the product with a fresh one", in
+						}
+					}
+				}
+			})
+			if bad == "" {
+				c.OK("C40g/CalcPairingScore/fresh-accumulator-no-in-place-ops", c.P.Pos(cps.Pos()), "score = OneDec()·Π components through value-returning Mul")
+			} else {
+				c.Fail("C40g/CalcPairingScore/fresh-accumulator-no-in-place-ops", c.P.InstrPos(at), "CalcPairingScore "+bad+": a stored score component can be overwritten by the running product and is multiplied in again when the next slot group re-scores only its differing requirements")
+			}
+		}
 		c.NotCovered("proportionality within statistical tolerance over epoch hashes; geo score values; rounding of scores below one; mixed-filter slots")
 	})
 }
